@@ -1488,6 +1488,19 @@ theorem yen_no_dissimilar_candidate :
       .diverges "no-progress" := by
   decide +kernel
 
+/-- `0 → 1 → 2 → 3` and the long direct edge `1 -e3→ 3` -/
+def shortcut : Config ℚ :=
+  mk 4 [⟨0, 1, 1⟩, ⟨1, 2, 1⟩, ⟨2, 3, 1⟩, ⟨1, 3, 5⟩] [[0], [1, 3], [2], []] [] []
+
+theorem yen_later_short_route :
+    obsOf (yens shortcut simAcceptAll .exact 0 3 2 [[0, 1, 2, 3], [1, 3]]) = .routes [[0, 1, 2], [0, 3]] ∧
+    obsOf (yens shortcut simAcceptAll .exact 0 3 3 [[0, 1, 2, 3], [1, 3]]) = .diverges "no-progress" := by
+  decide +kernel
+
+/-- k = 1 on the diamond: the shortest route, for the non-vacuity of the partial results -/
+theorem yen_k1 : obsOf (yens diamond simAcceptAll .exact 0 3 1 [[0, 1, 3]]) = .routes [[0, 1]] := by
+  decide +kernel
+
 end Example
 
 end Ksp
